@@ -417,13 +417,9 @@ func init() {
 			cl.receipts[h] = r
 			classes = append(classes, joinOr(cs, ","))
 		}
-		ch := make(chan []*message.Message, 300)
-		eh := eventHandlers.NewRetryV1EventHandler(zerolog.Nop().With(), events.NewListener(cl), c06EthHandler(), &c06Store{st}, c06Bridge, 1, big.NewInt(5), ch)
-		cls := guarded(func() error { return eh.HandleEvents(big.NewInt(1), big.NewInt(2)) })
-		if cls != "ok" {
-			return joinOr(classes, "/") + "|" + cls
-		}
-		return joinOr(classes, "/") + "|" + groups(drain(ch))
+		return joinOr(classes, "/") + "|" + collect(func(ch chan []*message.Message) error {
+			return eventHandlers.NewRetryV1EventHandler(zerolog.Nop().With(), events.NewListener(cl), c06EthHandler(), &c06Store{st}, c06Bridge, 1, big.NewInt(5), ch).HandleEvents(big.NewInt(1), big.NewInt(2))
+		})
 	}
 	// sub <items ;> — Substrate FungibleTransferEventHandler.ProcessDeposits
 	ops["C06.sub"] = func(a []string) string {
@@ -474,13 +470,9 @@ func init() {
 			conn.evts = append(conn.evts, &parser.Event{Name: subEvents.RetryEvent, Fields: registry.DecodedFields{
 				&registry.DecodedField{Name: "deposit_on_block_height", Value: types.NewU128(*new(big.Int).SetUint64(height))}}})
 		}
-		ch := make(chan []*message.Message, 300)
-		eh := subListener.NewRetryEventHandler(zerolog.Nop().With(), conn, subHandler(), 1, ch)
-		cls := guarded(func() error { return eh.HandleEvents(big.NewInt(1), big.NewInt(2)) })
-		if cls != "ok" {
-			return joinOr(classes, "/") + "|" + cls
-		}
-		return joinOr(classes, "/") + "|" + groups(drain(ch))
+		return joinOr(classes, "/") + "|" + collect(func(ch chan []*message.Message) error {
+			return subListener.NewRetryEventHandler(zerolog.Nop().With(), conn, subHandler(), 1, ch).HandleEvents(big.NewInt(1), big.NewInt(2))
+		})
 	}
 	// btc <tx ;> — Bitcoin FungibleTransferEventHandler.ProcessDeposits (one configured resource)
 	ops["C06.btc"] = func(a []string) string {
@@ -634,13 +626,79 @@ func genC06(g *G) {
 					}
 				}
 				g.Emit("evm", joinOr(xs, ";"))
+				g.Emit("hevm", joinOr(xs, ";"))
+				g.Emit("route", joinOr(xs, ";"))
+				// the same range with the hostile deposit alone on its own destination (an entry must not exist for it)
+				alone := append([]string{}, xs...)
+				alone[pos] = strings.Replace(alone[pos], "d:1:2:", "d:1:5:", 1)
+				alone[pos] = strings.Replace(alone[pos], "d:0:2:", "d:0:5:", 1)
+				g.Emit("hevm", joinOr(alone, ";"))
+				g.Emit("route", joinOr(alone, ";"))
+				g.Emit("retry1", joinOr(alone, ";"))
 				g.Emit("retry1", joinOr(xs, ";"))
 				g.Emit("retry1", "d:1:2:"+next()+":"+hx(cat(w32u(5), w32u(20), make([]byte, 20)))+":-/"+joinOr(xs, ";"))
 			}
 		}
 	}
-	n := g.Count(300, 20000)
+	// Substrate and Bitcoin HandleEvents: one hostile deposit at every position, also alone on its own destination
+	goodCDx := hx(cat(w32u(7), w32u(20), make([]byte, 20)))
+	subBad := []string{"d:%d:%s:00:0", "d:%d:%s:" + hx(cat(w32u(1), w32(new(big.Int).Sub(pow2(256), big.NewInt(1))), make([]byte, 32))) + ":0", "d:%d:%s:" + goodCDx + ":1", "b"}
+	btcBad := []string{"t:" + hx([]byte("zz-not-hex")) + ":1000", "t:" + opReturnHex("0x"+strings.Repeat("ab", 20)) + ":1000",
+		"t:" + opReturnHex("0x"+strings.Repeat("ab", 20)+"_256") + ":1000", "t:" + hx([]byte("6a")) + ":1000"}
+	for n := 1; n <= 4; n++ {
+		for pos := 0; pos < n; pos++ {
+			for _, bdst := range []int{2, 5} {
+				for _, b := range subBad {
+					xs := []string{}
+					for i := 0; i < n; i++ {
+						if i == pos {
+							if strings.Contains(b, "%") {
+								xs = append(xs, fmt.Sprintf(b, bdst, next()))
+							} else {
+								xs = append(xs, b)
+							}
+						} else {
+							xs = append(xs, "d:"+itoa(2+i%2)+":"+next()+":"+goodCDx+":0")
+						}
+					}
+					g.Emit("hsub", joinOr(xs, ";"))
+					g.Emit("subretry", joinOr(xs, ";"))
+				}
+			}
+			for _, b := range btcBad {
+				xs := []string{}
+				for i := 0; i < n; i++ {
+					if i == pos {
+						xs = append(xs, b)
+					} else {
+						xs = append(xs, "t:"+opReturnHex("0x"+strings.Repeat("cd", 20)+"_"+itoa(2+i%2))+":"+itoa(1000+i))
+					}
+				}
+				g.Emit("hbtc", joinOr(xs, ";"))
+			}
+		}
+	}
+	retry2Item := func() string {
+		switch g.Intn(8) {
+		case 0:
+			return "r:" + hx(g.Bytes([]int{0, 1, 31, 32, 100, 127, 129}[g.Intn(7)]))
+		case 1: // right length, source domain word out of uint8 range
+			d := g.Bytes(128)
+			return "r:" + hx(d)
+		default:
+			return "v:" + itoa(1+g.Intn(4)) + ":" + itoa(1+g.Intn(4)) + ":" + next()
+		}
+	}
+	n := g.Count(300, 14000)
 	for i := 0; i < n; i++ {
+		ev := list(g.Intn(7), func() string { return evmItem(false) })
+		g.Emit("hevm", ev)
+		if i%3 == 0 && i < 3*g.Count(100, 1500) {
+			g.Emit("route", ev)
+		}
+		g.Emit("hsub", list(g.Intn(7), subItem))
+		g.Emit("hbtc", list(g.Intn(7), btcItem))
+		g.Emit("retry2", list(g.Intn(6), retry2Item))
 		g.Emit("evm", list(g.Intn(7), func() string { return evmItem(false) }))
 		txs := []string{}
 		for t := 0; t < 1+g.Intn(3); t++ {
